@@ -22,13 +22,12 @@ theorem p_bFast (n : Nat) (sh : Sh) (pcs : Tid → Pc) (apcs : Tid → MpscA.Pc)
   rw [hx2] at hx3
   have hx4 := List.isEmpty_iff_length_eq_zero (l := acc)
   simp only [tstepC, touch] at hts
-  simp only [hx2] at hts
+  try simp only [hx2] at hts
   by_cases hg1 : sh.a.ready sh.a.head = true
-  · by_cases hg2 : (sh.a.head + 1) % sh.B = 0 <;>
-    (
-      simp only [hg1, hg2, ↓reduceIte] at hts
+  · (
+      simp only [hg1, ↓reduceIte] at hts
       bbranches
-      simp only [advA, MpscA.tstep, hg1, hg2, aB, eq_self, Bool.false_eq_true, ↓reduceIte] at hA' ⊢
+      simp only [advA, MpscA.tstep, hg1, aB, eq_self, Bool.false_eq_true, ↓reduceIte] at hA' ⊢
       bfin 0
     )
   · by_cases hg2 : acc.isEmpty = true <;>
